@@ -1,11 +1,16 @@
 import Driver.Smt
 import Driver.Fk
+import Driver.ModelMode
 /-! `osmt-model <mode> <file>`: line-protocol driver around the executable models and kernels. -/
 def main (args : List String) : IO UInt32 := do
   match args with
   | ["smt", path] =>
     let txt ← IO.FS.readFile path
     IO.println (Driver.runSmt (txt.splitOn "\n"))
+    return 0
+  | ["model", path] =>
+    let txt ← IO.FS.readFile path
+    for l in Driver.runModel (txt.splitOn "\n") do IO.println l
     return 0
   | ["fk", path] =>
     let txt ← IO.FS.readFile path
